@@ -6,7 +6,7 @@
 (* Clauses that start with "MACHINERY:" mean the event itself is unusable  *)
 (* (a wrong hint) - they are never reported as violations of the property. *)
 (***************************************************************************)
-EXTENDS CGSem, CGLint, CGSupergates
+EXTENDS CGSem, CGLint, CGTxMisc
 
 RECURSIVE TFISetTx(_,_)
 TFISetTx(c, S) == LET P == S \cup UNION {FiSet(c, i) : i \in S} IN IF P = S THEN S ELSE TFISetTx(c, P)
@@ -328,6 +328,9 @@ Judge_sensitivity_transform(e) ==
       n == Idx(c, e.node)
       sp == ConeInputs(c, n)
   IN Machinery(c) \cup Machinery(sen)
+     \cup (IF c.n <= 8 /\ Cardinality(sp) <= 3 /\ c.acyc /\ Len(c.bbs) = 0 /\ WellFormedRec(c) /\ WellFormedRec(sen)
+              /\ ToNamed(sen) \notin SensitivityResults(ToNamed(c), e.node)
+           THEN {"DRIFT:sensitivity_transform_not_among_the_as_built_model_results"} ELSE {})
      \cup (IF InputNames(sen) = NamesOf(c, sp) THEN {} ELSE {"inputs_are_not_the_cone_startpoints"})
      \cup (IF ~(c.acyc /\ sen.acyc) \/ NFree(sen) > MaxBits \/ FreeNames(sen) # InputNames(sen) \/ InputNames(sen) # NamesOf(c, sp)
            THEN NotEval(~c.acyc \/ NFree(c) > MaxBits)
